@@ -202,6 +202,60 @@ def merge_clause(post, p, vtable):
     return []
 
 
+# statuses of an evaluation that stopped BEFORE the decline handling of a DECLINED pull request (early_checks,
+# handle_comments and the commands, check_dependencies); NothingToDo is one of them only with the wait option
+BEFORE_DECLINE_HANDLING = {'NotMyJob', 'WrongDestination', 'UnknownCommand', 'NotEnoughCredentials', 'NotAuthor',
+                           'IncorrectCommandSyntax', 'HelpMessage', 'StatusReport', 'CommandNotImplemented',
+                           'LossyResetWarning', 'AfterPullRequest', 'IncorrectPullRequestNumber'}
+
+
+def integration_data_of(aw, p):
+    """What is left of the integration data of p: every w/<version>/<source of p> branch and every OPEN pull
+    request of the robot that is named after p or comes from such a branch."""
+    s = p['src'][1]
+    return {'branches': sorted(b for b in aw['branches'] if b[0] == 'W' and b[2] == s),
+            'open_integration_prs': sorted(c['id'] for c in aw['prs'] if c['robot'] and c['state'] == 'OPEN' and
+                                           (c['parent'] == p['id'] or (c['src'][0] == 'W' and c['src'][2] == s)))}
+
+
+def evaluated_declined_pr(pre, ev):
+    """The DECLINED user pull request this event is an evaluation of, by the statement: the pull request of a
+    pull request event, or the parent an integration pull request is named after.  (Commit events only ever
+    reach open pull requests.)"""
+    if ev.get('e') != 'job_pr':
+        return None
+    p = next((q for q in pre['prs'] if q['id'] == ev['pr']), None)
+    if p is not None and p['robot'] and p['src'][0] == 'W':
+        p = next((q for q in pre['prs'] if q['id'] == p['parent'] and p['title'] == q['id']), None)
+    if p is None or p['robot'] or p['state'] != 'DECLINED' or p['src'][0] != 'S':
+        return None
+    return p
+
+
+def declined_stays_clean(pre, post, p, status, waits):
+    """'However often and in whatever order events arrive ... declining the parent ... deletes exactly its
+    integration branches': after ANY evaluation of a DECLINED pull request p (whose source branch no other open
+    pull request uses) that gets to the decline handling, no w/<version>/<source> branch and no OPEN integration
+    pull request of p exists; and no evaluation of p, wherever it stops, creates one.
+    `waits`: the wait option is set on p (then NothingToDo comes from check_dependencies)."""
+    s = p['src']
+    for aw in (pre, post):
+        if any(q['id'] != p['id'] and q['state'] == 'OPEN' and q['src'] == s for q in aw['prs']):
+            return []
+    left, had = integration_data_of(post, p), integration_data_of(pre, p)
+    if not left['branches'] and not left['open_integration_prs']:
+        return []
+    created = [b for b in left['branches'] if b not in had['branches']] or \
+        [i for i in left['open_integration_prs'] if i not in had['open_integration_prs']]
+    stopped_before = status in BEFORE_DECLINE_HANDLING or (status == 'NothingToDo' and waits)
+    if created or not stopped_before:
+        return [{'what': 'declined: integration data of a declined pull request exists after its evaluation',
+                 'pr': p['id'], 'status': status, 'branches': [list(b) for b in left['branches']],
+                 'open_integration_prs': left['open_integration_prs'],
+                 'created_by_this_evaluation': bool(created)}]
+    return []
+
+
 def parent_of_event(pre, ev, refs):
     """The pull request an event must be handled as, according to the statement (None: the statement does not
     say - not an event on an integration pull request / on a source or integration tip of an open pull request).
